@@ -131,7 +131,7 @@ def run(case):
         return out
     if K.skip("C03-jsonld-base", fmt == "json-ld" and bool(case.get("base")), out):
         return out
-    if K.skip("C03-jsonld-odd-lists", fmt == "json-ld" and any(f.startswith("list:") and f not in ("list:ok", "list:nested") for f in feats0), out):
+    if K.skip("C03-jsonld-odd-lists", fmt == "json-ld" and any(f.startswith("list:") and f not in ("list:ok", "list:nested", "list:bnode-members") for f in feats0), out):
         return out
     kw = {}
     if case.get("base"):
